@@ -274,7 +274,8 @@ def run_seeded(prop: str, root: str, rc: int, evidence_dir, jobs: int = 16) -> i
             summ["defects_total"] += 1
             if status == "reported":
                 summ["defects_reported"] += 1
-            elif status == "undecided" and name in by_design:
+            elif status in ("undecided", "missed", "silent") and name in by_design:
+                # recorded limits of the technique (meta.json says why): not reported, and not a regression either
                 summ["defects_undecided_by_design"] += 1
             else:
                 summ["failures"].append({"id": name, "kind": kind, "status": status, "detail": detail})
